@@ -36,7 +36,12 @@ func TestMain(m *testing.M) {
 
 // HSpec is a receiving handler.
 type HSpec struct {
-	Kind string `json:"kind"` // all | none | parity | action | once | stuck (selects everything, queue of one message, never read)
+	// all | none | parity | action | once | stuck (selects everything, queue of
+	// one message, never read) | take (a filter with a memory: selects the next
+	// Arg+1 messages and leaves with the last) | sample (with a memory: selects
+	// one message in Arg+2) | consumer (registered through AddHandler: a callback
+	// whose duration varies, behind the library's own queue of ten)
+	Kind string `json:"kind"`
 	Arg  uint32 `json:"arg"`
 }
 
@@ -48,6 +53,9 @@ type Case struct {
 	Sizes     []int   `json:"sizes"` // payload size of message seq is Sizes[seq % len]
 	Handlers  []HSpec `json:"handlers"`
 	Yield     int     `json:"yield"`
+	// ArrivalLast: the handler which records the arrival order is registered
+	// behind the others instead of ahead of them
+	ArrivalLast bool `json:"arrival_last,omitempty"`
 	// FailedSends: before the run, this many sends fail on another connection
 	// of the process whose peer is gone (from two goroutines). What a failed
 	// send leaves behind must not show on a healthy connection.
@@ -86,11 +94,12 @@ func genCase(t *rapid.T) Case {
 	k := rapid.IntRange(1, 5).Draw(t, "handlers")
 	for i := 0; i < k; i++ {
 		c.Handlers = append(c.Handlers, HSpec{
-			Kind: rapid.SampledFrom([]string{"all", "none", "parity", "action", "once", "all", "parity", "action", "stuck"}).Draw(t, "hkind"),
+			Kind: rapid.SampledFrom([]string{"all", "none", "parity", "action", "once", "all", "parity", "action", "stuck", "take", "sample", "consumer"}).Draw(t, "hkind"),
 			Arg:  uint32(rapid.IntRange(0, 6).Draw(t, "harg")),
 		})
 	}
 	c.Yield = rapid.IntRange(0, 3).Draw(t, "yield")
+	c.ArrivalLast = rapid.Bool().Draw(t, "arrivallast")
 	if c.Transport != "script" && rapid.IntRange(0, 2).Draw(t, "closeafter") == 0 {
 		c.CloseAfter = true
 	}
@@ -117,7 +126,7 @@ func (h HSpec) filter() qnet.Filter {
 			return false, true
 		}
 		switch h.Kind {
-		case "all", "stuck":
+		case "all", "stuck", "consumer":
 			return true, true
 		case "none":
 			return false, true
@@ -148,6 +157,55 @@ func payload(sender, seq uint32, n int) []byte {
 type rx struct {
 	spec  HSpec
 	queue chan *qnet.Message
+	mu    sync.Mutex
+	// selected: what a filter with a memory answered "matched" for, in order
+	selected []*qnet.Header
+	calls    int
+	// consumed: what the callback of a "consumer" was called with, in order
+	consumed []*qnet.Message
+}
+
+// memoryFilter builds the filter of the kinds whose answer depends on what
+// they were asked before; it records what it selects.
+func (r *rx) memoryFilter() qnet.Filter {
+	return func(hdr *qnet.Header) (bool, bool) {
+		if hdr.Service == barrierService {
+			return false, true
+		}
+		r.mu.Lock()
+		defer r.mu.Unlock()
+		r.calls++
+		switch r.spec.Kind {
+		case "take":
+			n := int(r.spec.Arg) + 1
+			if r.calls > n {
+				return false, false
+			}
+			h := *hdr
+			r.selected = append(r.selected, &h)
+			return true, r.calls < n
+		default: // sample
+			if r.calls%(int(r.spec.Arg)+2) != 1 {
+				return false, true
+			}
+			h := *hdr
+			r.selected = append(r.selected, &h)
+			return true, true
+		}
+	}
+}
+
+func (r *rx) consumer() qnet.Consumer {
+	return func(m *qnet.Message) error {
+		// the first messages of every run of eight take longer
+		if (m.Header.ID%8) < 2 && r.spec.Arg > 0 {
+			time.Sleep(time.Duration(r.spec.Arg) * 100 * time.Microsecond)
+		}
+		r.mu.Lock()
+		r.consumed = append(r.consumed, m)
+		r.mu.Unlock()
+		return nil
+	}
 }
 
 // connect builds a connected (sender endpoint, receiver endpoint) pair; the
@@ -302,7 +360,14 @@ func checkCase(c Case) error {
 	var arrivalClosed int32
 	rxs := make([]*rx, len(c.Handlers))
 	register := func(e qnet.EndPoint) {
-		e.MakeHandler(func(hdr *qnet.Header) (bool, bool) { return true, true }, arrival, func(error) { atomic.StoreInt32(&arrivalClosed, 1) })
+		observe := func() {
+			e.MakeHandler(func(hdr *qnet.Header) (bool, bool) { return true, true }, arrival, func(error) { atomic.StoreInt32(&arrivalClosed, 1) })
+		}
+		if c.ArrivalLast {
+			defer observe()
+		} else {
+			observe()
+		}
 		for i, h := range c.Handlers {
 			rxs[i] = &rx{spec: h, queue: make(chan *qnet.Message, total+8)}
 			if h.Kind == "stuck" {
@@ -310,7 +375,14 @@ func checkCase(c Case) error {
 				// promises the others that it does not matter to them
 				rxs[i].queue = make(chan *qnet.Message, 1)
 			}
-			e.MakeHandler(h.filter(), rxs[i].queue, nil)
+			switch h.Kind {
+			case "take", "sample":
+				e.MakeHandler(rxs[i].memoryFilter(), rxs[i].queue, nil)
+			case "consumer":
+				e.AddHandler(h.filter(), rxs[i].consumer(), nil)
+			default:
+				e.MakeHandler(h.filter(), rxs[i].queue, nil)
+			}
 		}
 	}
 	if c.FailedSends > 0 {
@@ -438,6 +510,72 @@ collect:
 	for i, r := range rxs {
 		var want []*qnet.Message
 		if r.spec.Kind == "stuck" {
+			continue
+		}
+		if r.spec.Kind == "consumer" {
+			// behind the library's queue of ten the callback is promised no
+			// completeness, but what it is called with comes in arrival order
+			pos := map[*qnet.Message]int{}
+			for k, m := range order {
+				pos[m] = k
+			}
+			var prev, n int
+			for stable := 0; stable < 4; { // let the callbacks under way finish
+				r.mu.Lock()
+				k := len(r.consumed)
+				r.mu.Unlock()
+				if k == n {
+					stable++
+				} else {
+					stable, n = 0, k
+				}
+				time.Sleep(5 * time.Millisecond)
+			}
+			r.mu.Lock()
+			consumed := append([]*qnet.Message{}, r.consumed...)
+			r.mu.Unlock()
+			prev = -1
+			for j, m := range consumed {
+				k, ok := pos[m]
+				if !ok {
+					return vt.Violationf("C10:consumer-foreign:"+c.Transport, "handler %d (AddHandler): callback %d was given a message which never arrived", i, j)
+				}
+				if k <= prev {
+					return vt.Violationf("C10:consumer-order:"+c.Transport, "handler %d (AddHandler): callback %d was given arrival %d after arrival %d", i, j, k, prev)
+				}
+				prev = k
+			}
+			vt.LabelN("consumer-callbacks", int64(len(consumed)))
+			continue
+		}
+		if r.spec.Kind == "take" || r.spec.Kind == "sample" {
+			// a filter with a memory: the handler receives what the filter
+			// answered "matched" for, each once, in that order
+			r.mu.Lock()
+			sel := append([]*qnet.Header{}, r.selected...)
+			r.mu.Unlock()
+			var got []*qnet.Message
+		drainm:
+			for {
+				select {
+				case m, ok := <-r.queue:
+					if !ok {
+						break drainm
+					}
+					got = append(got, m)
+				default:
+					break drainm
+				}
+			}
+			if len(got) != len(sel) {
+				return vt.Violationf("C10:handler-selection:"+c.Transport, "handler %d (%s %d, a filter with a memory) received %d messages, its filter had selected %d", i, r.spec.Kind, r.spec.Arg, len(got), len(sel))
+			}
+			for j := range got {
+				if got[j].Header != *sel[j] {
+					return vt.Violationf("C10:handler-order:"+c.Transport, "handler %d (%s %d): message %d is not the %d-th its filter selected", i, r.spec.Kind, r.spec.Arg, j, j)
+				}
+			}
+			vt.Label("filter-with-memory")
 			continue
 		}
 		f := r.spec.filter()
